@@ -356,7 +356,11 @@ func (s *xmlSer) chars(v string, attrQuote rune) {
 		case r == '\r':
 			s.b.WriteString([]string{"&#13;", "&#xD;"}[s.t.Draw(2)])
 		case r == '\n' && attrQuote == 0:
-			s.b.WriteString([]string{"\n", "\r\n", "\r", "&#10;"}[s.t.Pick(4, 2, 1, 1)])
+			form := []string{"\n", "\r\n", "\r", "&#10;"}[s.t.Pick(4, 2, 1, 1)]
+			if form == "\n" && strings.HasSuffix(s.b.String(), "\r") {
+				form = "\r\n" // a literal CR followed by LF would read as one line end
+			}
+			s.b.WriteString(form)
 		case (r == '\n' || r == '\t') && attrQuote != 0:
 			fmt.Fprintf(&s.b, "&#%d;", r)
 		case r == '<':
